@@ -22,6 +22,8 @@ for d in sorted(glob.glob(os.path.join(V, "seeded", "*", ""))):
         first = ("missed; " if "NOT caught" in cr else "weak (" + cr.split("first attempt:", 1)[1].split(".")[0].strip() + "); ") + re.split(r"Added[^:]*:", cr, 1)[1].split(" Now ")[0].strip()
     elif "NOT reported" in cr:
         first = "missed by the check of its own property; reported by the check named in meta.json (`check_property`), which owns the clause it violates first"
+    elif "recorded miss" in cr:
+        first = "**missed** by the registered check (see meta.json)"
     elif "NOT caught, and not claimed" in cr:
         first = "**missed** (see meta.json for why no sound rule was found)"
     elif "NOT caught" in cr:
